@@ -105,6 +105,12 @@ class NpRandom:
 class NpStub:
     def __init__(self, rec):
         self.random = NpRandom(rec)
+        import numpy
+        self._np = numpy
+
+    def __getattr__(self, name):
+        # anything else the code may use (asarray, zeros, ...) is real numpy
+        return getattr(self._np, name)
 
     def arange(self, a, b=None):
         if b is None:
